@@ -206,6 +206,12 @@ def main(pid):
     docs += amb_docs
     docs = [d for d in dict.fromkeys(docs) if d.strip()]
     dobs = vlib.impl_map("drv_resolve", "run_docs", docs)
+    # (documents whose objects were resolved a second time after an edition became known contribute a second list)
+    for d, o in list(zip(docs, dobs)):
+        if o.get("second") and not o["raised"]:
+            docs.append(d + "   [second resolution of the same objects after a year / edition was filled in]")
+            dobs.append({"cites": o["second"]["cites"], "groups": o["second"]["groups"], "raised": None, "prefix": o["second"]["prefix"]})
+    ev.cov["second_resolutions_after_edition_known"] = sum(1 for o in dobs if o.get("second"))
     dtr = [{"p": [0] * len(o["cites"]), "cs": o["cites"], "g": o["groups"] or [], "r": o["raised"] or "",
             "pre": o["prefix"] if not o["raised"] else []} for o in dobs]
     tf_alpha = [{"k": "un", "rv": "", "pg": -2, "pl": [], "df": [], "ag": "-", "nm": [], "pin": -1, "id": ""}]
